@@ -5,6 +5,7 @@
    [reach_count] additionally counts the accepted assignments. *)
 From Coq Require Import List ZArith QArith Permutation.
 Import ListNotations.
+From Eudoxia Require Import Model.Sched Model.Simulator Proofs.PriorityPoolRunFacts Proofs.SimReachFacts.
 From Eudoxia Require Import Model.Types Model.Lifecycle Model.Container Model.Pool Model.Executor
   Proofs.LedgerFacts.
 Close Scope Q_scope.
@@ -87,3 +88,39 @@ Print Assumptions C09_success_iff_all_completed.
 (* non-vacuity: the initial state is reachable with an empty history and an empty ledger *)
 Example C09_witness : forall C, reach_count C (init_estate C 2 4%Z 8%Q) (init_estate C 2 4%Z 8%Q) [] 0.
 Proof. intros. constructor. Qed.
+
+(* Simulator level, every shipped scheduler [a]: in every state of every run the loop's own counters obey
+   the ledger. There is a history [h] of delivered results with which the executor state is
+   [reach_hist]-reachable (so C09_results_once, C09_every_assignment_accounted, C09_suspended_no_result
+   apply to it); the failure counter is the number of failed results in [h]; the assignment counter is
+   successes + failures + live + suspended. *)
+Theorem C09_sim_ledger : forall C a np cpu ram t s,
+  sim_reach C a 0%Z (init_sim C np cpu ram) t s ->
+  exists h,
+    reach_hist C (init_estate C np cpu ram) (sm_exec s) h /\
+    sm_nfail s = Z.of_nat (length (filter r_err h)) /\
+    sm_nasg s = Z.of_nat (length (filter (fun r => negb (r_err r)) h) + length (filter r_err h)
+                          + live_count (sm_exec s) + suspended_count (sm_exec s)).
+Proof. exact sim_ledger_count. Qed.
+Print Assumptions C09_sim_ledger.
+
+(* for a whole run the history is what the tick logs recorded: the assignments of the logs are accounted
+   for by the results of the logs and the containers still in the pools; every container reported once *)
+Theorem C09_sim_run_ledger : forall C a np cpu ram arrivals sf logs oe,
+  sim_run C a 0%Z (init_sim C np cpu ram) arrivals = (sf, logs, oe) ->
+  let h := flat_map tl_results logs in
+  length (flat_map tl_asgs logs) =
+    length (filter (fun r => negb (r_err r)) h) + length (filter r_err h)
+    + live_count (sm_exec sf) + suspended_count (sm_exec sf) /\
+  NoDup (map r_cid h).
+Proof. exact sim_run_ledger. Qed.
+Print Assumptions C09_sim_run_ledger.
+
+(* non-vacuity: the run of SimReachExamples under each scheduler (2 to 7 assignments, 1 to 3 failures) *)
+Example C09_sim_witness : forall a,
+  reach_count SimReachExamples.Cx (init_estate SimReachExamples.Cx 2 10%Z 10%Q)
+              (sm_exec (SimReachExamples.final a))
+              (flat_map tl_results (SimReachExamples.logs_of a))
+              (length (flat_map tl_asgs (SimReachExamples.logs_of a))) /\
+  Nat.leb 2 (length (flat_map tl_asgs (SimReachExamples.logs_of a))) = true.
+Proof. intros a. split; [apply SimReachExamples.final_reach_count | destruct a; vm_compute; reflexivity]. Qed.
